@@ -114,7 +114,7 @@ fn main() {
                 let j = std::fs::read_to_string(Journal::path(prop)).unwrap_or_default();
                 match serde_json::from_str::<Value>(j.trim()) {
                     Ok(doc) if mode != "--replay" => {
-                        let dir = std::path::Path::new(VERIF_ROOT).join("replays");
+                        let dir = verif_root().join("replays");
                         let _ = std::fs::create_dir_all(&dir);
                         let path = dir.join(format!("{}-abort-{}.json", prop, std::process::id()));
                         let out = json!({
@@ -186,6 +186,6 @@ fn write_abort_evidence(prop: &str, mode: &str, out: &Value) {
         "wall_s": 0.0,
         "violations": 1,
     });
-    let p = std::path::Path::new(VERIF_ROOT).join("evidence").join(format!("{}.json", prop));
+    let p = verif_root().join("evidence").join(format!("{}.json", prop));
     let _ = std::fs::write(p, serde_json::to_string_pretty(&ev).unwrap());
 }
